@@ -119,6 +119,10 @@ func (ia *IngressAnalyzer) mapServiceToPeers(svc *corev1.Service) error {
 // getServicePeers given a service return its selected peers
 func (ia *IngressAnalyzer) getServiceSelectedPeers(svc *corev1.Service) ([]eval.Peer, error) {
 	svcStr := types.NamespacedName{Name: svc.Name, Namespace: svc.Namespace}.String()
+	if len(svc.Spec.Selector) == 0 { // `selector: {}` is a service without selector too, not one that selects every pod
+		ia.logWarning("Ignoring " + parser.Service + whiteSpace + svcStr + colon + missingSelectorWarning)
+		return nil, nil
+	}
 	if svc.Spec.Selector == nil {
 		ia.logWarning("Ignoring " + parser.Service + whiteSpace + svcStr + colon + missingSelectorWarning)
 		return nil, nil
@@ -394,6 +398,9 @@ func getPeerAccessPort(actualServicePorts []corev1.ServicePort, requiredPort int
 
 	// get the peer port/s to find from the required port
 	for _, svcPort := range actualServicePorts {
+		if svcPort.Protocol != "" && svcPort.Protocol != corev1.ProtocolTCP {
+			continue // the ingress controller connects over TCP: a UDP / SCTP service port forwards none of it
+		}
 		var svcPodAccessPort intstr.IntOrString
 		// extracting the pod access port from the service port
 		if !(svcPort.TargetPort.IntVal == 0 && svcPort.TargetPort.StrVal == "") {
